@@ -1,0 +1,15 @@
+//go:build verif
+
+package authorization
+
+// C04, ERC-20 precompile: the authorization handed out for a SendAuthorization grant (comment-only; compiled only with -tags verif).
+// Lib specs: /verif/specs/c04e/70_send_authz.spec (g_sa, the stored SendAuthorization of each grant).
+
+/*@
+// a fresh copy of the stored SendAuthorization; it is only found under the URL of MsgSend
+extend func CheckAuthzExists
+    ensures send: result.2 == nil && g_kind[key] == SendTag() ==> unbox(result.0, "*github.com/cosmos/cosmos-sdk/x/bank/types.SendAuthorization") != nil
+            && fresh(unbox(result.0, "*github.com/cosmos/cosmos-sdk/x/bank/types.SendAuthorization"))
+            && *unbox(result.0, "*github.com/cosmos/cosmos-sdk/x/bank/types.SendAuthorization") == g_sa[key]
+            && const_auth_url(SendTag()) == msgURL
+@*/
